@@ -817,6 +817,12 @@ def call_method(vm, obj, name, args, kwargs):
                 return gc.env.get('__acc__')
             items = vm.iterate(args[0])
             if any(isinstance(i, Sym) for i in items):
+                if all(isinstance(i, (SStr, str)) for i in items):
+                    # sep.join([s0, s1, ...]) of a list of known length: s0 ++ sep ++ s1 ++ ... (uninterpreted strcat)
+                    out = items[0]
+                    for i in items[1:]:
+                        out = vm.binop(ast.Add(), vm.binop(ast.Add(), out, obj), i) if obj else vm.binop(ast.Add(), out, i)
+                    return out
                 raise OutOfSubset('join of symbolic strings')
             return obj.join(items)
         if name in ('split', 'startswith', 'endswith', 'replace', 'strip', 'lower', 'upper', 'isdigit', 'splitlines',
